@@ -32,11 +32,12 @@ def build():
     import fcntl
     with open(os.path.join(VERIF, ".cache", "kreplay.lock"), "w") as lk:
         fcntl.flock(lk, fcntl.LOCK_EX)
-        rc, out, dt = sh("cargo build --offline 2>&1", cwd=d, env={"CARGO_TARGET_DIR": tdir, "RUSTFLAGS": "--cfg verif_kernels"}, timeout=1200)
+        rc, out, dt = sh("cargo build --offline 2>&1", cwd=d, env={"CARGO_TARGET_DIR": tdir, "RUSTFLAGS": "--cfg verif_kernels", "CARGO_INCREMENTAL": "0"}, timeout=1200)
         if rc != 0:
             raise Inconclusive("kernel replay crate does not build against the scratch copy:\n" + out[-4000:])
         exe = os.path.join(sc.dir, "vkreplay")
         shutil.copy(os.path.join(tdir, "debug", "vkreplay"), exe)
+        prune_target(tdir, ("islamic_prayer_times", "vkreplay"))
     _state["exe"] = exe
     return exe
 
